@@ -100,6 +100,15 @@ CLAIMS = {
              "instance purges and flushes.",
              technique="Lean 4 termination + invariant proof for drop + gated-worker scenarios with a lock probe",
              ref="8 C14"),
+ "C07": dict(text="Proved (c07_reads_partial): for every configuration incl. cache limits 0, every history of legal calls without "
+             "truncate interleaved with arbitrary flushes, drains and worker steps of any non-fatal outcome, read and iter "
+             "return exactly the reference entries: every live entry is resident or its record is completely written in a "
+             "closed chunk's file (ReadInv, built on the journal invariant); worker steps and cache limits are invisible. The "
+             "excluded class (an entry re-appended after a truncation with a log id at or below the eviction boundary) is a "
+             "recorded finding with a proved counterexample. Correspondence/oracle with small caches x worker steps x drains "
+             "x restarts x recovery images.",
+             technique="Lean 4 invariant proof (ReadInv over journal + cache + worker) + correspondence/oracle against the reference log",
+             ref="8 C07"),
 }
 
 NOT_YET = "check not built yet (work in progress; see DESIGN.md section 8)"
